@@ -26,7 +26,7 @@ func (c11) ID() string { return "C11" }
 func (c11) HarnessRacesAreSignals() bool { return true }
 func (c11) Level() string                { return "exploration" }
 func (c11) Rule() string {
-	return "unit = one executed schedule: up to three transactions (each a program of 1..4 read-only or writing accesses to the cache names A/B with callbacks that may fail, constructors that may fail, optional second goroutine inside the transaction, then Commit(false|true)) run concurrently on one cache.Manager with size limit -1, 0 or small, with Release calls at random moments; the interleaving is steered by seeded delays at the verif pause points inside Transaction.With / Commit and inside the callbacks, and by writers parked inside their callback while readers are issued. Online monitor in the instrumented callbacks (objects are harness Cachables with serial numbers): (1) no callback of another transaction on an object between a transaction's first writing entry and its call of Commit, and no writer entering while another transaction's reader is inside; (2) an object that a failed transaction wrote or failed on is never handed to a callback again; (3) a read-only access issued while a writer is parked inside its callback starts its callback on a different object instead of blocking; (4) after everyone finished, a fresh writing transaction on every name completes; plus the race detector over the callbacks' plain field writes. Non-trivial = at least two transactions touched the same name, one of them writing; distinct by (programs, observed entry order)."
+	return "unit = one executed schedule: up to three transactions (each a program of 1..4 read-only or writing accesses to the cache names A/B with callbacks that may fail, constructors that may fail, optional sibling goroutines inside the transaction (reading; writing only in schedules whose other transactions all read), then Commit(false|true)) run concurrently on one cache.Manager with size limit -1, 0 or small, with Release calls at random moments; the interleaving is steered by seeded delays at the verif pause points inside Transaction.With / Commit and inside the callbacks, and by writers parked inside their callback while readers are issued. Online monitor in the instrumented callbacks (objects are harness Cachables with serial numbers): (1) no callback of another transaction on an object between a transaction's first writing entry and its call of Commit, and no writer entering while another transaction's reader is inside; (2) an object that a failed transaction wrote or failed on is never handed to a callback again; (3) a read-only access issued while a writer is parked inside its callback starts its callback on a different object instead of blocking; (4) after everyone finished, a fresh writing transaction on every name completes; plus the race detector over the callbacks' plain field writes. Non-trivial = at least two transactions touched the same name, one of them writing; distinct by (programs, observed entry order)."
 }
 func (c11) Assumptions() []string {
 	return []string{"'touched by a failed transaction' = written by it or failed on; caches it merely read may be reused", "ownership ends when Commit is called (not when it returns)", "race reports inside manager.go itself are attributed to C09's safety clause and only counted here"}
@@ -47,7 +47,7 @@ func (c11) Cases(tier string, seed uint64) []fw.Case {
 	}
 	cs := make([]fw.Case, chunks)
 	for i := range cs {
-		cs[i] = fw.Case{Seed: fw.CaseSeed(seed, "C11", i), Name: fmt.Sprintf("chunk%d", i), Params: map[string]any{"schedules": per, "twoGoroutines": tier == "thorough" && i%2 == 1}}
+		cs[i] = fw.Case{Seed: fw.CaseSeed(seed, "C11", i), Name: fmt.Sprintf("chunk%d", i), Params: map[string]any{"schedules": per, "twoGoroutines": i%2 == 1}}
 	}
 	return cs
 }
@@ -306,6 +306,28 @@ func (c11) RunCase(c fw.Case, env *fw.Env) *fw.CaseResult {
 		if parkScenario {
 			txs[0].prog = []c11access{{name: "A", readOnly: false, park: true}}
 			parked, release = make(chan struct{}), make(chan struct{})
+		}
+		// scenario: transaction 1 is the only writer and makes all its writing accesses to one
+		// name from sibling goroutines (the others only read). With a single writing
+		// transaction no lock order between transactions exists, so it must finish. Sibling
+		// writers next to other writers are left out: a name can have two live elements (one
+		// evicted or scrapped while still held), and siblings that looked the name up before
+		// and after wait for each other's element - an order no program controls, observed on
+		// the unchanged tree (DESIGN 8.10).
+		if two && !parkScenario && rng.IntN(5) == 0 {
+			name := []string{"A", "B"}[rng.IntN(2)]
+			k := 2 + rng.IntN(3)
+			prog := make([]c11access, k)
+			for i := range prog {
+				prog[i] = c11access{name: name, secondGoro: i > 0 || rng.IntN(2) == 0, cbFails: rng.IntN(10) == 0}
+			}
+			txs[0].prog = prog
+			for _, tx := range txs[1:] {
+				for i := range tx.prog {
+					tx.prog[i].readOnly = true
+				}
+			}
+			res.Stat("sibling_writer_schedules", 1)
 		}
 		var wg sync.WaitGroup
 		touched := map[string][2]int{} // name -> [txs touching, writers]
